@@ -42,6 +42,32 @@ class CallGraph:
             if adt:
                 self.ext_trait_impls.setdefault(adt, []).extend(k for _, k in imp["methods"])
         self._adt_cache = {}
+        # which concrete types are ever turned into `dyn Trait` (unsizing casts): a call through `&dyn Trait` can only reach their impls
+        self.unsized_to = {}
+        for k, f in cr.fns.items():
+            for body in [f] + f.get("promoted", []):
+                for b in body.get("blocks", []):
+                    for st in b["s"]:
+                        rv = st.get("rv")
+                        if not (rv and rv.get("r") == "cast" and "Unsize" in str(rv.get("ck", ""))):
+                            continue
+                        tgt = cr.ty_str(rv["ty"]) if isinstance(rv.get("ty"), int) else ""
+                        if "dyn " not in tgt:
+                            continue
+                        pl = M.op_place(rv.get("o", {}))
+                        src = None
+                        if pl is not None:
+                            ty, _ = M.place_ty(cr, None, pl, body)
+                            if ty is None and isinstance(pl, int) and pl < len(body.get("locals", [])):
+                                ty = M.Ty(cr, body["locals"][pl])
+                            src = ty.strip_refs().adt_path() if ty is not None else None
+                            if src is None and ty is not None and "dyn " in cr.ty_str(ty.idx if hasattr(ty, "idx") else body["locals"][pl]):
+                                continue        # dyn -> dyn reborrow: no new concrete type
+                        elif "k" in rv.get("o", {}) and "ty" in rv["o"]["k"]:
+                            src = M.Ty(cr, rv["o"]["k"]["ty"]).strip_refs().adt_path()
+                        for tr in cr.traits:
+                            if ("dyn " + tr) in tgt:
+                                self.unsized_to.setdefault(tr, set()).add(src)
         self._build()
 
     def _adts_in(self, tyidx, depth=0):
@@ -121,6 +147,11 @@ class CallGraph:
                         parts = decl.rsplit("::", 1)
                         if len(parts) == 2:
                             impls = self.trait_impls.get((parts[0], parts[1]))
+                            if impls and via == "dyn" and not self.over_approx:
+                                # precise graph: only types that are unsized to this dyn trait somewhere (None = unknown source: keep all)
+                                srcs = self.unsized_to.get(parts[0])
+                                if srcs and None not in srcs:
+                                    impls = [i for i in impls if self.impl_self.get(i) in srcs] or impls
                             if impls:
                                 outs.update(i for i in impls if i in cr.fns)
                                 if parts[0] in cr.traits:
